@@ -4,6 +4,7 @@ go 1.23.0
 
 require (
 	github.com/matrix-org/gomatrixserverlib v0.0.0
+	github.com/matrix-org/util v0.0.0-20221111132719-399730281e66
 	github.com/miekg/dns v1.1.66
 	github.com/sirupsen/logrus v1.9.3
 	github.com/tidwall/gjson v1.18.0
@@ -14,7 +15,6 @@ require (
 require (
 	github.com/hashicorp/go-set/v3 v3.0.0 // indirect
 	github.com/matrix-org/gomatrix v0.0.0-20220926102614-ceba4d9f7530 // indirect
-	github.com/matrix-org/util v0.0.0-20221111132719-399730281e66 // indirect
 	github.com/oleiade/lane/v2 v2.0.0 // indirect
 	github.com/tidwall/match v1.1.1 // indirect
 	github.com/tidwall/pretty v1.2.1 // indirect
